@@ -149,6 +149,11 @@ def gen(run, w):
                 workers=2, timeout=1500)
     hists = [rec['h'] for rec in r.records]
     run.exhaustive[f'batch sequences: <= {rounds} batches of <= 2 writes over {wc} x {{2,4}}'] = True
+    # overrides of cells beyond the used ranges, which a formula of the workbook (S1!E1 = F4 + S2!C3) reads
+    rf = run.tlc('Gen_C04', ['SPECIFICATION GSpec', 'CONSTANTS WCoords = {"S1F4","S2C3","S1A1"} Values = {2,4} MaxBatch = 1 Rounds = 3'],
+                 workers=2, timeout=1500, tag='Gen_C04_far')
+    hists += [rec['h'] for rec in rf.records]
+    run.exhaustive['batch sequences: <= 3 single-write batches over two out-of-range cells and one constant'] = True
     if not run.quick:
         r3 = run.tlc('Gen_C04', ['SPECIFICATION GSpec', f'CONSTANTS WCoords = {COORDS_Q} Values = {{2,4}} MaxBatch = 1 Rounds = 4'],
                      workers=2, timeout=1500, tag='Gen_C04_r4')
